@@ -213,6 +213,21 @@ def tagtype_events(key):
     mk("escapes", kind=1, created_at=T, tags=[["t", 'q"\\/\b\f\n\r\t\x00\x1f\x7f']], content='q"\\/\b\f\n\r\t\x00\x1f\x7f ﻿')
     mk("long-tag", kind=1, created_at=T, tags=[["t", "v" * 2000]], content="tt-long")
     mk("many-items", kind=1, created_at=T, tags=[["t"] + ["i%d" % i for i in range(300)]], content="tt-many")
+    # hex fields spelled in upper case: if such an event is admitted at all it must come back verbatim
+    e = ref.make_event(key, kind=1, created_at=T, content="tt-upper-sig")
+    cases.append(("hexcase=upper-sig", dict(e, sig=e["sig"].upper())))
+    e = ref.make_event(key, kind=1, created_at=T, content="tt-upper-pubkey")
+    e2 = dict(e, pubkey=e["pubkey"].upper())
+    try:
+        e2["id"] = subm.rapid_id(e2)
+        e2["sig"] = key.sign(bytes.fromhex(e2["id"]))
+        cases.append(("hexcase=upper-pubkey", e2))
+        e3 = dict(e2, pubkey=e["pubkey"][:10].upper() + e["pubkey"][10:])
+        e3["id"] = subm.rapid_id(e3)
+        e3["sig"] = key.sign(bytes.fromhex(e3["id"]))
+        cases.append(("hexcase=mixed-pubkey", e3))
+    except Exception:
+        pass
     for name, ts in (("ts=1", 1), ("ts=2^31-1", 2 ** 31 - 1), ("ts=2^31", 2 ** 31), ("ts=2^32-1", 2 ** 32 - 1), ("ts=2^32", 2 ** 32), ("ts=2^63-1", 2 ** 63 - 1)):
         mk(name, kind=1, created_at=ts, content="tt-" + name)
     for name, k in (("kind=0", 0), ("kind=65535", 65535), ("kind=2^31-1", 2 ** 31 - 1), ("kind=2^32-1", 2 ** 32 - 1), ("kind=2^63-1", 2 ** 63 - 1)):
@@ -259,6 +274,24 @@ async def run_events(backend, cases, counters, mode):
             check_frames(conn, n0, None, counters, viols, replay, backend)
             if ok is True:
                 accepted.append((label, ev))
+        if mode == "tagtypes":
+            # a storage engine fault during the insert: its (multi-line, quoted) message ends up
+            # in the OK frame, which must still be JSON
+            from .. import faults
+
+            plan_ = faults.install_sql(rig.storage) if backend == "sql" else None
+            if plan_ is not None:
+                fkey = ref.key_from_seed("c04-fault")
+                for k in (0, 1, 2, 3):
+                    fev = ref.make_event(fkey, kind=30000 if k % 2 else 1, created_at=gen.T0 + k, tags=[["d", "f"], ["t", "x"]], content="fault %d" % k)
+                    plan_.arm(k, "error")
+                    n0 = rig.rec.n
+                    await conn.cmd(json.dumps(["EVENT", fev]))
+                    await rig.quiesce()
+                    counters["injected_storage_faults"] = counters.get("injected_storage_faults", 0) + plan_.fired
+                    plan_.disarm()
+                    check_frames(conn, n0, None, counters, viols, {"backend": backend, "mode": mode, "label": "storage-fault-%d" % k, "event": fev}, backend)
+                    nontrivial.append(h([backend, mode, "storage-fault", k]))
         await rig.quiesce()
         counters["accepted"] = counters.get("accepted", 0) + len(accepted)
         live = {}
